@@ -186,6 +186,36 @@ def replay(path):
     return 0
 
 
+def conformance(jobs):
+    """Design-model conformance (DRIFT): executions generated by TLC from a design model carry the
+    offsets the model predicts for the successive successful allocations (header key `expect`); they are
+    compared with what the real code returned.  A mismatch is not a verdict (the contract decides) but
+    says that the design model no longer describes the mechanism."""
+    checked, matched, drifts = 0, 0, []
+    for job in jobs:
+        want = {i: [int(v) for v in h["expect"].split(",")] if h["expect"] != "-" else []
+                for i, (h, c) in enumerate(job.execs) if "expect" in h
+                and not (h.get("type") == "node" and job.cfg == "dbg" and h.get("tag") == "tlc-lifo")}
+        if not want:
+            continue
+        got, xn = {}, -1
+        with open(job.trace) as f:
+            for ln in f:
+                if ln.startswith('{"e":"x"'):
+                    xn += 1
+                elif xn in want and ln.startswith('{"e":"alloc"') and '"r":"ok"' in ln:
+                    e = json.loads(ln)
+                    got.setdefault(xn, []).append(e["off"] if e["b"] == 0 else -1)
+        for i, exp in want.items():
+            checked += 1
+            if got.get(i, []) == exp:
+                matched += 1
+            elif len(drifts) < 5:
+                drifts.append({"cfg": job.cfg, "header": job.execs[i][0], "cmds": job.execs[i][1], "expected": exp,
+                               "observed": got.get(i, [])})
+    return {"executions_with_model_prediction": checked, "matched": matched, "drift_samples": drifts}
+
+
 def exec_stats(jobs):
     """distinct executions (by content) and those that reached a non-initial model state, i.e. had
     at least one successful allocation recorded."""
